@@ -155,6 +155,45 @@ def run(ctx):
                            "first: a self-reference like reading the old value is not reported" % (T, fb, T, fa, fa),
                            (ta[0].site if ta else ""))
         ctx.floor("C18.W2 evaluate-before-assign pairs" + tag, n2, 4)
+        # W2b: element-wise constructs (`{% with a = 1, b = a %}`: a collection of (target, value) pairs).  Within one
+        # iteration W2 orders value before target; *across* elements it matters whether both happen in one loop
+        # (element i is assigned before element i+1 is evaluated) or in two phases (all values first).  If the engine
+        # evaluates all values before it assigns any target while the tracker interleaves, the tracker treats an
+        # earlier target as assigned where the engine still looks the name up in the context.
+
+        def same_loop(evs_a, evs_b):
+            for a in evs_a:
+                for b in evs_b:
+                    if a.fn is not b.fn:
+                        continue
+                    if a.bb == b.bb:
+                        return True        # both inside one iterator closure
+                    for h, body in cfg.natural_loops(a.fn):
+                        if a.bb in body and b.bb in body:
+                            return True
+            return False
+        n2b = 0
+        for T in sorted(ct):
+            assigns = {f: evs for (k, f), evs in ct[T].items() if k == "assign" and "." in f}
+            evals = {f: evs for (k, f), evs in ct[T].items() if k == "eval" and "." in f}
+            for fa, aevs in sorted(assigns.items()):
+                for fb, bevs in sorted(evals.items()):
+                    if fa == fb or fa.split(".")[0] != fb.split(".")[0]:
+                        continue
+                    ta = [e for (k, f), evs in mtab.get(T, {}).items() if k == "assign" and f == fa for e in evs]
+                    tb = [e for (k, f), evs in mtab.get(T, {}).items() if k == "eval" and f == fb for e in evs]
+                    if not ta or not tb:
+                        continue
+                    n2b += 1
+                    cg_inter = same_loop(aevs, bevs)
+                    tr_inter = same_loop(ta, tb)
+                    phased = (not cg_inter) and any(events.precedes(b, a) for a in aevs for b in bevs)
+                    ctx.ob("C18.W2.elements-are-bound-in-the-engine's-interleaving", "%s%s|%s<-%s" % (tag, T, fa, fb),
+                           not (phased and tr_inter),
+                           "the engine evaluates every %s.%s before it assigns any %s.%s, but the tracker assigns each "
+                           "element before it visits the next value: `{%% with a = 1, b = a %%}` looks `a` up in the "
+                           "context while the tracker treats it as assigned" % (T, fb, T, fa), (ta[0].site if ta else ""))
+        ctx.floor("C18.W2 element-wise (target, value) constructs" + tag, n2b, 1)
 
         # ---- W3
         tv = prog.fn(M + "tracker_visit_expr")
